@@ -43,6 +43,7 @@ CONSTANTS Names,           \* template names
           TruncClasses,    \* length classes external damage may truncate an entry to (subset of 0..5)
           AllowForeign,    \* external damage may replace the magic by another interpreter's
           Stages,          \* where a write may be interrupted: subset of CrashStages
+          ClearStages,     \* where another environment's clear() may fall into a write: subset of CrashStages
           None,            \* "no entry" (model value)
           EmitGraph        \* print every transition as a JSON line (graph export for the replay)
 
@@ -67,7 +68,7 @@ InCode == 5
 Full == 6
 
 CrashStages == {"preTemp", "tempPartial", "tempFull", "replaced"}
-ASSUME Stages \subseteq CrashStages /\ TruncClasses \subseteq 0..5 /\ Store \in {"fs", "mem"}
+ASSUME Stages \subseteq CrashStages /\ ClearStages \subseteq CrashStages /\ TruncClasses \subseteq 0..5 /\ Store \in {"fs", "mem"}
 
 KeyOf(n, c) == IF KeyCoversConfig THEN <<n, c>> ELSE <<n, "*">>
 Keys == {KeyOf(n, c) : n \in Names, c \in Cfgs}
@@ -162,6 +163,19 @@ CrashedLoad(e, n, st) ==
     /\ UNCHANGED <<source, mode>>
     /\ Finish(<<"crash", e, n, st>>, NoRes, {NoRes})
 
+\* the same load, while ANOTHER environment sharing the cache calls clear() at stage st of
+\* the write.  clear() removes entries, never a writer's temporary file (BCCacheWrite.tla:
+\* C27_ClearLeavesWritersAlone), so the load completes as if undisturbed -- a concurrent clear
+\* can only cause misses -- and only its own new entry is there afterwards.
+LoadDuringClear(e, n, st) ==
+    LET r == LoadResult(e, n)
+        k == KeyOf(n, CfgOf[e])
+    IN
+    /\ Store = "fs" /\ r.wrote
+    /\ fs' = [x \in Keys |-> IF x = k /\ st # "replaced" THEN r.fs[k] ELSE None]
+    /\ UNCHANGED <<source, junk, mode>>
+    /\ Finish(<<"loadclear", e, n, st>>, r.res, Allowed(e, n))
+
 Modify(n, v) ==                       \* the template source changes
     /\ v # source[n]
     /\ source' = [source EXCEPT ![n] = v]
@@ -197,6 +211,7 @@ Modes == [kind : ClientKinds \ {"trunc"}, c : {0}] \cup [kind : {"trunc"}, c : T
 Next ==
     \/ \E e \in Envs, n \in Names : Load(e, n)
     \/ \E e \in Envs, n \in Names, st \in Stages : CrashedLoad(e, n, st)
+    \/ \E e \in Envs, n \in Names, st \in ClearStages : LoadDuringClear(e, n, st)
     \/ \E n \in Names, v \in Versions : Modify(n, v)
     \/ Clear
     \/ \E k \in Keys, c \in TruncClasses : Truncate(k, c)
@@ -206,7 +221,7 @@ Next ==
 Spec == Init /\ [][Next]_vars
 
 (* -- properties ---------------------------------------------------------------- *)
-IsLoad == ret.op[1] = "load"
+IsLoad == ret.op[1] \in {"load", "loadclear"}
 
 TypeOK ==
     /\ source \in [Names -> Versions]
